@@ -129,7 +129,8 @@ def input_class(spec, dump_kw):
         c = label_class([c['label'] for c in spec['constraints']] + [d['label'] for d in spec['discrete']])
         if c == "'/' in label":
             return "constraint label containing '/'"
-    return f"{spec['kind']} {label_class(spec['labels'])} {dump_kw or 'defaults'}"
+    large = ' with 65535 or more cases in total' if 'linear_sparse' in spec else ''
+    return f"{spec['kind']}{large} {label_class(spec['labels'])} {dump_kw or 'defaults'}"
 
 
 # ------------------------------------------------------------------ per kind
@@ -342,11 +343,13 @@ def cqm_case(ctx, r, B, spec):
                   'ok ' + F.content_expr(m.objective, variables) + ' rest=0', '_cyExpression._into_file vs exprDecode', ic, 'expression member', rp)
 
 
-def dqm_case(ctx, r, B, spec):
+def dqm_case(ctx, r, B, spec, combos=None):
     m = F.build(spec)
     n = m.num_variables()
     for compress in (False, True):
         for ign in (False, True):
+            if combos is not None and (compress, ign) not in combos:
+                continue
             kw = f'compress={compress}, ignore_labels={ign}'
             data = m.to_file(compress=compress, ignore_labels=ign, spool_size=r.choice([0, int(1e9)])).read()
             ctx.case(('dqm', repr(spec), kw), nontrivial=True,
@@ -702,6 +705,13 @@ def run(ctx):
                     raise e
             if len([f for f in ctx.failures if f['kind'] == 'property']) >= 12:
                 break
+        flush(ctx, B)
+        B = Batch()
+    # DQMs whose total number of cases crosses the uint16 boundary of the index arrays (few variables, sparse biases)
+    for _ in range(ctx.scale(3, 12)):
+        spec = F.spec_dqm_large(r)
+        ctx.tick('dqm large (cases around 65536)')
+        dqm_case(ctx, r, B, spec, combos=[(False, False), (True, True)] if ctx.quick else None)
         flush(ctx, B)
         B = Batch()
     flush(ctx, B)
